@@ -376,7 +376,7 @@ Section Model.
   Definition kw_step (elt : string) (rest : list string) (k : kws) : res (kws * nat) :=
     if String.prefix "imp" elt then
       do v <- pop1 rest;
-      do x <- of_opt EValue (fl P v);
+      do x <- of_opt EValue (tf P v);   (* to_float(kw_list.pop()) *)
       (* a later entry replaces an earlier one for the same particle; the
          importance is the largest over the particles *)
       let m := assign (imp_particles elt) x (k_impmap k) in
